@@ -154,6 +154,13 @@ pub enum RxMsg {
         method: String,
         params: Value,
     },
+    /// a well-framed JSON body that is not a valid JSON-RPC response / notification (no or null
+    /// id, both or neither of result / error, ...): not a framing matter (C19) but one of
+    /// "exactly one well-formed response carrying its id" (C18, C02)
+    Malformed {
+        why: String,
+        body: String,
+    },
 }
 
 #[derive(Clone, Debug)]
@@ -275,8 +282,20 @@ impl FrameParser {
         match classify(&v) {
             Ok(m) => Some(m),
             Err(e) => {
-                self.error = Some(format!("frame at output byte {at}: {e}: {v}"));
-                None
+                if v.is_object() {
+                    let mut body = v.to_string();
+                    if body.len() > 300 {
+                        let mut cut = 300;
+                        while !body.is_char_boundary(cut) {
+                            cut -= 1;
+                        }
+                        body.truncate(cut);
+                    }
+                    Some(RxMsg::Malformed { why: e, body })
+                } else {
+                    self.error = Some(format!("frame at output byte {at}: {e}: {v}"));
+                    None
+                }
             }
         }
     }
